@@ -5,8 +5,12 @@
    compared with the real classes on every run (harness/c07.py std_correspondence, harness/c11.py) is the use made of
    them: Constraint.checkToken / checkOpentype, PolyConstraint.checkToken, each unslicer's setConstraint / checkToken /
    doOpen / receiveChild / receiveClose, RootUnslicer.doOpen / open / openerCheckToken.
-   Not modelled (the model abstains; the generators avoid them): decimal, reference, copyable, set-vocab / add-vocab,
-   non-ASCII unicode bodies, float / bool / frozenset members of sets and dict keys.  Model only. *)
+   Not modelled: decimal, copyable, set-vocab / add-vocab unslicers, what a reference resolves to, non-ASCII unicode bodies,
+   float / bool / frozenset members of sets and dict keys.  There the model ABSTAINS: the callback answers OExc 97 / OExc 98, the
+   run ends with the marker event UUnmodelled and nothing else (lib/Unsl.v: abstention is a third outcome, neither ok nor
+   "abandoned"), and every theorem about this instance says that it claims nothing about such a run.  What the real code does
+   BEFORE the unmodelled unslicer exists is modelled: the opentype check, the registry lookup, and the AssertionError of the
+   unslicer's setConstraint under a constraint it does not accept.  Model only. *)
 From Coq Require Import ZArith List Bool Lia.
 Import ListNotations.
 Require Import Verif.lib.PyLite Verif.gen.BananaGen Verif.gen.RecvGen Verif.lib.Token Verif.lib.Recv Verif.lib.Unsl.
@@ -82,7 +86,7 @@ Inductive sch :=
 | HSet (ic : option sctr) (mx : option Z) | HFset (ic : option sctr) (mx : option Z)
 | HText (mx : option (option Z))        (* None: no constraint set; Some mx: UnicodeConstraint with that maxLength *)
 | HBool (v : option bool) | HNone
-| HUnmodelled.
+| HRef.                                 (* ReferenceUnslicer: its token check is modelled, the object it resolves to is not *)
 
 Record sfr := { s_ch : sch; s_items : list uval (* newest first; a set keeps distinct members *); s_n : Z }.
 
@@ -122,7 +126,7 @@ Definition std_check (f : sfr) (ty size : Z) : oc unit :=
          end
   | HBool _ => if negb (ty =? tok_INT) then OBanana else if negb (s_n f =? 0) then OBanana else OOk tt
   | HNone => OBanana
-  | HUnmodelled => OExc 98
+  | HRef => if ty =? tok_INT then OOk tt else OBanana       (* "ReferenceUnslicer only accepts INTs" *)
   end.
 
 (* RootUnslicer.openerCheckToken (every standard unslicer delegates to its parent, hence to the root) *)
@@ -151,13 +155,20 @@ Definition otcode (name : list Z) : option Z :=
   else None.
 
 (* the unslicer for an opentype and what <child>.setConstraint(c) leaves in it.
-   OExc 5: the `assert isinstance(constraint, XConstraint)` of setConstraint fails *)
+   OExc 5: the `assert isinstance(constraint, XConstraint)` of setConstraint fails.
+   OExc 98: ABSTAINS -- the unslicer that the real code creates here (DecimalUnslicer without a constraint or under Any;
+   ReplaceVocabUnslicer / AddVocabUnslicer without a constraint, under Any or under a ByteStringConstraint) is not modelled.
+   Under any other constraint DecimalUnslicer.setConstraint is `assert False` and the vocab unslicers' is
+   `assert isinstance(constraint, ByteStringConstraint)`: AssertionError, the connection is abandoned. *)
 Definition mkchild (code : Z) (c : option sctr) : oc (option sfr) :=
   let some (h : sch) := OOk (Some (mkf h)) in
-  if code =? oc_none then some HNone
-  else if (code =? oc_decimal) || (code =? oc_reference) || (code =? oc_setvocab) || (code =? oc_addvocab) then some HUnmodelled
-  else
   let free := match c with None => true | Some (SAny _) => true | _ => false end in
+  if code =? oc_none then some HNone
+  else if code =? oc_reference then some HRef
+  else if code =? oc_decimal then (if free then OExc 98 else OExc 5)
+  else if (code =? oc_setvocab) || (code =? oc_addvocab) then
+    match c with None | Some (SAny _) | Some (SPrim _) => OExc 98 | _ => OExc 5 end
+  else
   if code =? oc_list then (if free then some (HList None None) else match c with Some (SList _ ic mx) => some (HList (Some ic) mx) | _ => OExc 5 end)
   else if code =? oc_tuple then (if free then some (HTuple None) else match c with Some (STuple _ cs) => some (HTuple (Some cs)) | _ => OExc 5 end)
   else if code =? oc_dict then (if free then some (HDict None None) else match c with Some (SDict _ k v mk) => some (HDict (Some (k, v)) mk) | _ => OExc 5 end)
@@ -187,15 +198,14 @@ Definition std_do_open (st : list sfr) (ot : list (list Z)) : oc (option sfr) :=
         if negb (match c with Some c0 => scheck_opentype c0 code | None => true end) then OViol
         else match code with
              | None => OViol                                     (* RootUnslicer.open: unknown OPEN type *)
-             | Some k => if k =? oc_copyable then OExc 98        (* waits for the class name: not modelled *)
+             | Some k => if k =? oc_copyable then OExc 98        (* ABSTAINS: waits for the class name, then a RemoteCopyUnslicer *)
                          else if (k =? oc_setvocab) || (k =? oc_addvocab) then OViol     (* openRegistries: no vocab unslicers *)
                          else mkchild k c
              end
       end
-    | HUnmodelled => OExc 98
     | _ => OViol                                                 (* LeafUnslicer.doOpen *)
     end
-  | _, _ => OExc 98
+  | _, _ => OExc 98                                              (* unreachable: no modelled doOpen asks for a second index token *)
   end.
 
 Definition std_start (f : sfr) (cnt : Z) : oc sfr := OOk f.
@@ -264,7 +274,7 @@ Definition std_child (f : sfr) (v : uval) : list uevent * oc sfr :=
     | _ => ([], OExc 5)
     end
   | HNone => ([], OOk f)
-  | HUnmodelled => ([UUnmodelled], OExc 97)
+  | HRef => ([UUnmodelled], OExc 97)                                  (* ABSTAINS: Banana.getObject / the scoped object tables *)
   end.
 
 Definition vnone : uval := UNode 8 [] [].
@@ -282,7 +292,7 @@ Definition std_close (f : sfr) : oc uval :=
                  else OOk (UNode 4 [] (dedupe (rev (s_items f)) []))
   | HText _ | HBool _ => match s_items f with [v] => OOk v | _ => OOk vnone end
   | HNone => OOk vnone
-  | HUnmodelled => OExc 97
+  | HRef => OExc 97
   end.
 
 Definition std_finish (f : sfr) : oc unit := OOk tt.
@@ -320,34 +330,71 @@ Definition taster_bound (t : tinfo) : option Z :=
 
 Definition omax_list (l : list (option Z)) : option Z := fold_right omax (Some 0) l.
 
-(* largest STRING / LONGINT / LONGNEG body that can be accepted anywhere under constraint c; None = no finite bound *)
-Fixpoint sbound (c : sctr) : option Z :=
+(* the bound read off the TASTER TABLES alone (the round-5 definition of the schema's bound).  It is NOT a bound on what the
+   real receiver holds: props/C11.v C11_taster_only_bound_refuted -- a slot whose opentype check admits OPEN copyable hands the
+   following tokens to a RemoteCopyUnslicer, whose checkToken applies no constraint to attribute names. *)
+Fixpoint sbound_tasters (c : sctr) : option Z :=
   match c with
   | SAny _ => None
   | SPrim t => taster_bound t
   | SText t mx => omax (taster_bound t) (match mx with Some m => Some (Z.max 0 (6 * m)) | None => None end)
   | SBool t _ => taster_bound t
-  | SList t ic _ => omax (taster_bound t) (sbound ic)
-  | STuple t cs => omax (taster_bound t) (omax_list (map sbound cs))
-  | SDict t k v _ => omax (taster_bound t) (omax (sbound k) (sbound v))
-  | SSet t ic _ => omax (taster_bound t) (sbound ic)
-  | SChoice alts => omax_list (map sbound alts)
+  | SList t ic _ => omax (taster_bound t) (sbound_tasters ic)
+  | STuple t cs => omax (taster_bound t) (omax_list (map sbound_tasters cs))
+  | SDict t k v _ => omax (taster_bound t) (omax (sbound_tasters k) (sbound_tasters v))
+  | SSet t ic _ => omax (taster_bound t) (sbound_tasters ic)
+  | SChoice alts => omax_list (map sbound_tasters alts)
   end.
 
+(* a constraint's opentype list is CLOSED when it is a list (not None = "all types are accepted") that names none of the opentypes
+   whose unslicers take no size limit from the schema: copyable, decimal, set-vocab, add-vocab *)
+Definition tclosed (t : tinfo) : bool :=
+  match t_opens t with
+  | None => false
+  | Some l => negb (zmem oc_copyable l || zmem oc_decimal l || zmem oc_setvocab l || zmem oc_addvocab l)
+  end.
+
+Definition cbound (t : tinfo) : option Z := if tclosed t then taster_bound t else None.
+
+(* THE SCHEMA'S BOUND: the largest STRING / LONGINT / LONGNEG body that can be accepted anywhere under constraint c; None = no
+   finite bound.  Finite only if every constraint of the tree has a closed opentype list; a PolyConstraint (which inherits
+   opentypes = None: schema.py "TODO: taster/opentypes should be a union of the alternatives'") has a finite bound only as the
+   ROOT constraint (inner = false), where RootUnslicer.doOpen looks OPEN copyable up in the top-level registries and refuses it;
+   in a container's slot (inner = true) it admits OPEN copyable and nothing bounds the attribute names that follow. *)
+Fixpoint sbound_in (inner : bool) (c : sctr) : option Z :=
+  match c with
+  | SAny _ => None
+  | SPrim t => cbound t
+  | SText t mx => omax (cbound t) (match mx with Some m => Some (Z.max 0 (6 * m)) | None => None end)
+  | SBool t _ => cbound t
+  | SList t ic _ => omax (cbound t) (sbound_in true ic)
+  | STuple t cs => omax (cbound t) (omax_list (map (sbound_in true) cs))
+  | SDict t k v _ => omax (cbound t) (omax (sbound_in true k) (sbound_in true v))
+  | SSet t ic _ => omax (cbound t) (sbound_in true ic)
+  | SChoice alts => if inner then None else omax_list (map (sbound_in true) alts)
+  end.
+
+Definition sbound (c : sctr) : option Z := sbound_in false c.      (* of a root constraint *)
+Definition ibound (c : sctr) : option Z := sbound_in true c.       (* of the constraint of a container's slot *)
+
 Definition obound (oc_ : option sctr) : option Z := match oc_ with None => None | Some c => sbound c end.
+Definition oibound (oc_ : option sctr) : option Z := match oc_ with None => None | Some c => ibound c end.
 
 (* the same for what setConstraint left in an unslicer *)
 Definition fbound (h : sch) : option Z :=
   match h with
   | HRoot c => obound c
-  | HList ic _ | HSet ic _ | HFset ic _ => obound ic
+  | HList ic _ | HSet ic _ | HFset ic _ => oibound ic
   | HTuple None => None
-  | HTuple (Some cs) => omax_list (map sbound cs)
+  | HTuple (Some cs) => omax_list (map ibound cs)
   | HDict None _ => None
-  | HDict (Some (k, v)) _ => omax (sbound k) (sbound v)
+  | HDict (Some (k, v)) _ => omax (ibound k) (ibound v)
   | HText None | HText (Some None) => None
   | HText (Some (Some m)) => Some (Z.max 0 (6 * m))
-  | HBool _ | HNone | HUnmodelled => Some 0
+  | HBool _ | HNone | HRef => Some 0
   end.
 
 Definition ole (a : option Z) (B : Z) : Prop := match a with Some x => x <= B | None => False end.
+
+(* did the model abstain in this run? *)
+Definition sabstained (es : list uevent) : bool := abstained es.
